@@ -5,12 +5,10 @@ let flags_of_variant v =
   match v with
   | "repaired" -> repaired
   | "defective" -> defective
-  | "d_range" -> { repaired with f_range = true }
+  | "d_head" | "d_stale_window" -> head
   | "d_stale" -> { repaired with f_stale = true }
-  | "d_drop" -> { repaired with f_drop = true }
-  | "d_bulk" -> { repaired with f_bulk = true }
-  | "d_relall" -> { repaired with f_relall = true }
-  | "d_stale_bulk" | "d_recv_fixed" -> { defective with f_drop = false; f_relall = false; f_range = false }
+  | "d_range" -> { repaired with f_range = true }
+  | "d_stale_bulk" -> { repaired with f_stale = true; f_bulk = true; f_window = true }
   | _ -> failwith ("unknown variant " ^ v)
 
 let z_of_decimal s = match n_of_decimal s with N0 -> Z0 | Npos p -> Zpos p
